@@ -186,3 +186,21 @@ def run_alarm(fn, timeout: float = 20.0) -> Any:
     finally:
         signal.setitimer(signal.ITIMER_REAL, 0)
         signal.signal(signal.SIGALRM, old)
+
+
+def limit_failures(ctx, per_key: int = 6) -> None:
+    """The framework keeps at most 200 recorded failures per run. Known findings that recur on many generated cases would fill
+    that list and hide a *new* kind of failure found later in the same run: record only the first `per_key` failures of every key
+    (the rest are counted in the histogram as `more:<key>`)."""
+    if getattr(ctx, "_sfv_limited", False):
+        return
+    orig, seen = ctx.fail, {}
+
+    def fail(key, detail, replay):
+        seen[key] = seen.get(key, 0) + 1
+        if seen[key] <= per_key:
+            orig(key, detail, replay)
+        else:
+            ctx.count(f"more:{key}")
+    ctx.fail = fail
+    ctx._sfv_limited = True
